@@ -29,7 +29,9 @@ def scalar_close(a, b, rtol=1e-5):
 
 
 def run(ctx, replay=None):
-    C.run_gate(ctx)
+    import glob
+    extra = sorted(os.path.basename(p)[:-2] for p in glob.glob(os.path.join(C.COQ, "theories", "Properties", "C10_*.v")))
+    C.run_gate(ctx, extra_props=extra)
     per = 2 if ctx.quick else 20
     groups = [[tuple(replay["case"])]] if replay else Z.make_groups(ctx, per)
     # tiny accumulator buffers for the co-occurrence family are reached through coo_initial_memory in the zoo
